@@ -192,13 +192,19 @@ Record minus (g0 g : sgraph) (R : list nat) : Prop := {
 Definition justified (g0 : sgraph) (R : list nat) (x : nat) : Prop :=
   exists c, In c (sg_out g0 x) /\ (sg_label g0 c = Some GFalse \/ In c R).
 
+(* dead: an And with a F child, or with a dead child *)
+Inductive gdead (g : sgraph) : nat -> Prop :=
+| gd_false x c : sg_label g x = Some GAnd -> In c (sg_out g x) -> sg_label g c = Some GFalse -> gdead g x
+| gd_dead x c : sg_label g x = Some GAnd -> In c (sg_out g x) -> gdead g c -> gdead g x.
+
 (* loop invariant of delete_parent_and_chain with `pend` = current :: current_vec *)
 Record chain_inv (g0 g : sgraph) (R pend : list nat) : Prop := {
   ci_minus : minus g0 g R;
   ci_just : forall x, In x R -> justified g0 R x;
   ci_pend : forall q, In q pend -> sg_label g0 q = Some GAnd -> ~ In q R -> justified g0 R q;
   ci_up : forall x p, In x R -> In (p, x) (sg_edges g0) -> sg_label g0 p = Some GAnd ->
-          In p R \/ In p pend
+          In p R \/ In p pend;
+  ci_dead : forall x, In x R -> gdead g0 x
 }.
 
 Lemma justified_mono g0 R R' x : incl R R' -> justified g0 R x -> justified g0 R' x.
@@ -228,11 +234,15 @@ Lemma chain_step_remove g0 g R cur stk : chain_inv g0 g R (cur :: stk) ->
   sg_label g cur = Some GAnd ->
   chain_inv g0 (remove_node cur g) (cur :: R) (rev (sg_in g cur) ++ stk).
 Proof.
-  intros [Hm Hj Hp Hu] Hc.
+  intros [Hm Hj Hp Hu Hd] Hc.
   assert (Hnr : ~ In cur R) by (intros Hin; destruct (mi_dead _ _ _ Hm cur Hin) as [_ E]; congruence).
   assert (Hc0 : sg_label g0 cur = Some GAnd) by (rewrite <- (mi_live _ _ _ Hm cur Hnr); exact Hc).
   assert (Hinc : incl R (cur :: R)) by (intros y Hy; now right).
-  constructor.
+  assert (Hdc : gdead g0 cur).
+  { destruct (Hp cur (or_introl eq_refl) Hc0 Hnr) as [c [Hc1 [Hc2|Hc2]]].
+    - exact (gd_false g0 cur c Hc0 Hc1 Hc2).
+    - apply (gd_dead g0 cur c Hc0 Hc1). now apply Hd. }
+  constructor; [| | | |intros x [<-|Hx]; [exact Hdc|now apply Hd]].
   - now apply minus_remove.
   - intros x [<-|Hx].
     + apply (justified_mono g0 R); [exact Hinc|]. apply Hp; [now left|exact Hc0|exact Hnr].
@@ -262,10 +272,10 @@ Qed.
 Lemma chain_step_skip g0 g R cur stk t : chain_inv g0 g R (cur :: stk) ->
   sg_label g cur = Some t -> t <> GAnd -> chain_inv g0 g R stk.
 Proof.
-  intros [Hm Hj Hp Hu] Hc Ht.
+  intros [Hm Hj Hp Hu Hd] Hc Ht.
   assert (Hnr : ~ In cur R) by (intros Hin; destruct (mi_dead _ _ _ Hm cur Hin) as [_ E]; congruence).
   assert (Hc0 : sg_label g0 cur = Some t) by (rewrite <- (mi_live _ _ _ Hm cur Hnr); exact Hc).
-  constructor; [exact Hm|exact Hj| |].
+  constructor; [exact Hm|exact Hj| | |exact Hd].
   - intros q Hq. apply Hp. now right.
   - intros x p Hx Hpx Hlp. destruct (Hu x p Hx Hpx Hlp) as [H|[<-|H]]; [now left| |now right].
     congruence.
@@ -340,7 +350,7 @@ Proof. induction es as [|e es IH]; [reflexivity|]. cbn. now rewrite IH. Qed.
 
 Lemma chain_shrink g0 g' R : chain_inv g0 g' R [] -> shrink g0 g'.
 Proof.
-  intros [Hm Hj _ Hu].
+  intros [Hm Hj _ Hu _].
   assert (Hnr : forall x, sg_alive g' x = true -> ~ In x R).
   { intros x Ha Hin. destruct (mi_dead _ _ _ Hm x Hin) as [_ E]. unfold sg_alive in Ha. now rewrite E in Ha. }
   assert (Hkeep : forall x t, sg_label g0 x = Some t -> t <> GAnd -> sg_label g' x = Some t).
@@ -381,7 +391,8 @@ Proof.
     - constructor; [exact HI|intros x []|reflexivity|now rewrite notin_nil].
     - intros x [].
     - intros q [<-|[]] _ _. exists c. split; [exact Hc|now left].
-    - intros x p []. }
+    - intros x p [].
+    - intros x []. }
   split; [apply (mi_inv _ _ _ (ci_minus _ _ _ _ HC))|now apply (chain_shrink g g' R')].
 Qed.
 
@@ -512,4 +523,44 @@ Proof.
   - intros g1 x g2 [HI1 Hs1] Hb. destruct (pass2_body_shrink g1 x g2 HI1 Hb) as [HI2 Hs2].
     split; [exact HI2|]. now apply (shrink_trans g g1 g2).
   - split; [exact HI|apply shrink_refl].
+Qed.
+
+(* the same with an invariant that sees the traversal state *)
+Lemma dfs_fold_invariant_st {St} (nb : St -> nat -> list nat) (body : St -> nat -> option St)
+  (Q : St -> list nat -> list nat -> list nat -> Prop) :
+  (forall s nx rest disc fin, Q s (nx :: rest) disc fin -> mem nx disc = false ->
+     Q s (push_undiscovered (nx :: disc) (nx :: rest) (nb s nx)) (nx :: disc) fin) ->
+  (forall s nx rest disc fin, Q s (nx :: rest) disc fin -> mem nx disc = true -> mem nx fin = true ->
+     Q s rest disc fin) ->
+  (forall s nx rest disc fin s', Q s (nx :: rest) disc fin -> mem nx disc = true -> mem nx fin = false ->
+     body s nx = Some s' -> Q s' rest disc (nx :: fin)) ->
+  forall fuel s stack disc fin s', Q s stack disc fin ->
+    dfs_fold nb body fuel s stack disc fin = Some s' -> exists disc' fin', Q s' [] disc' fin'.
+Proof.
+  intros Hd Hp Hb. induction fuel as [|f IH]; intros s stack disc fin s' HQ H; [discriminate|].
+  cbn [dfs_fold] in H. destruct stack as [|nx rest]; [injection H as <-; now exists disc, fin|].
+  destruct (mem nx disc) eqn:Ed; cbn [negb] in H.
+  - destruct (mem nx fin) eqn:Ef.
+    + exact (IH _ _ _ _ _ (Hp _ _ _ _ _ HQ Ed Ef) H).
+    + destruct (body s nx) as [s1|] eqn:E; [|discriminate]. exact (IH _ _ _ _ _ (Hb _ _ _ _ _ _ HQ Ed Ef E) H).
+  - exact (IH _ _ _ _ _ (Hd _ _ _ _ _ HQ Ed) H).
+Qed.
+
+(* every neighbour is discovered or pushed *)
+Lemma push_cover disc succs : forall stack c, In c succs ->
+  mem c disc = true \/ In c (push_undiscovered disc stack succs).
+Proof.
+  unfold push_undiscovered. induction succs as [|x succs IH]; intros stack c Hc; [destruct Hc|]. cbn [fold_left].
+  destruct Hc as [->|Hc].
+  - destruct (mem c disc) eqn:E; [now left|]. right.
+    assert (Hmono : forall l st, In c st -> In c (fold_left (fun st succ => if mem succ disc then st else succ :: st) l st)).
+    { induction l as [|y l IHl]; intros st Hst; [exact Hst|]. cbn [fold_left]. apply IHl. destruct (mem y disc); [exact Hst|now right]. }
+    apply Hmono. now left.
+  - apply IH. exact Hc.
+Qed.
+
+Lemma push_keeps disc succs : forall stack c, In c stack -> In c (push_undiscovered disc stack succs).
+Proof.
+  unfold push_undiscovered. induction succs as [|x succs IH]; intros stack c Hc; [exact Hc|]. cbn [fold_left].
+  apply IH. destruct (mem x disc); [exact Hc|now right].
 Qed.
